@@ -136,6 +136,13 @@ class Executor(ResolutionContext):
 
         if isinstance(maybe_type, str):
             return self.schema.get_type(maybe_type)  # type: ignore
+        elif isinstance(maybe_type, ObjectType):
+            # Type resolvers survive `Schema.clone()` and schema transforms
+            # but keep returning the type objects of the schema they were
+            # written against: go by name, as for `str` results.
+            return self.schema.types.get(  # type: ignore
+                maybe_type.name, maybe_type
+            )
         else:
             return maybe_type
 
